@@ -203,6 +203,8 @@ def o5(W, ob):
                 ob.fail('disconnect_player_at_frame|spectator-arm-store', 'disconnecting a spectator writes `%s`' % w['ap'].s(d), where(d, w['line']))
 
 
+from . import helpers
+
 OBLIGATIONS = [
     ('C06.O1', 'broadcast cursor', 'next_spectator_frame is written only by the broadcast (+1, after the sends of its frame, '
      'once per fetched frame); frames are fetched with confirmed_inputs(cursor) and sent only while cursor <= confirmed frame.', o1),
@@ -214,4 +216,5 @@ OBLIGATIONS = [
     ('C06.O5', 'spectators do not perturb players', 'effect summary of the broadcast is confined to cursor, spectator endpoints and '
      'socket; the spectator arm of disconnect_player_at_frame only stops the endpoint.', o5),
     ('C06.O6', 'same cut-off predicate on host and spectator (= C03.O2)', 'see C03.O2', c03.o2),
+    ('C06.H', 'helpers the rules above rely on', 'the bodies of the helpers named by this property\'s rules compute what the rules assume (registry_counts, confirmed_input); see rules/helpers.py', helpers.bundle('registry_counts', 'confirmed_input')),
 ]
